@@ -6,3 +6,6 @@ mod rpc_server;
 mod start;
 
 pub use start::start;
+
+#[cfg(feature = "verif")]
+pub(crate) use rpc_server::verif_methods;
